@@ -231,7 +231,7 @@ def items(tier: str) -> List[Any]:
         for d in DETS:
             out.append(("detorder", contract, [d, d]))
     # the same orders through Tealer.register_detector / run_detectors (the route of the command line)
-    for contract in (10,) if tier == "quick" else (10, 3, 5):
+    for contract in (10,):
         for a, b in itertools.permutations(DETS, 2):
             out.append(("register", contract, [a, b]))
         for tri in itertools.permutations(("can-close-asset", "can-close-account", "rekey-to", "group-size-check"), 3):
